@@ -22,31 +22,46 @@ fn check(text: &str) -> Result<(), String> {
     }
     Ok(())
 }
-fn run(text: String) -> Result<(), String> {
-    let (tx, rx) = mpsc::channel();
-    let t2 = text.clone();
-    std::thread::spawn(move || { let r = std::panic::catch_unwind(move || check(&t2)); let _ = tx.send(r); });
-    match rx.recv_timeout(Duration::from_secs(5)) {
-        Ok(Ok(r)) => r,
-        Ok(Err(_)) => Err(format!("C02 panic: input {:?}", text)),
-        Err(_) => Err(format!("C02 no termination within 5 s: input {:?}", text)),
-    }
-}
 #[test]
 fn all_short_concatenations() {
-    let mut frontier = vec![String::new()];
-    for depth in 0..3 {
-        let mut next = vec![];
-        for t in &frontier { for a in FRAGS { next.push(format!("{t}{a}")); } }
-        // check in parallel chunks without thread-per-input overhead: the timeout thread is only used on the last level
-        for t in &next {
-            let r = if depth < 2 { std::panic::catch_unwind(|| check(t)).unwrap_or_else(|_| Err(format!("C02 panic: input {:?}", t))) } else { std::panic::catch_unwind(|| check(t)).unwrap_or_else(|_| Err(format!("C02 panic: input {:?}", t))) };
-            if let Err(e) = r { panic!("WITNESS {e}"); }
+    // the search runs in a worker thread; the main thread watches its progress so that a non-terminating parse is
+    // reported with the input it hangs on
+    use std::sync::{Arc, Mutex};
+    let current: Arc<Mutex<(u64, String)>> = Arc::new(Mutex::new((0, String::new())));
+    let (tx, rx) = mpsc::channel::<Result<(), String>>();
+    let cur2 = current.clone();
+    std::thread::spawn(move || {
+        let mut frontier = vec![String::new()];
+        let mut n = 0u64;
+        for _depth in 0..3 {
+            let mut next = vec![];
+            for t in &frontier { for a in FRAGS { next.push(format!("{t}{a}")); } }
+            for t in &next {
+                n += 1;
+                if n % 64 == 1 || t.contains('#') { *cur2.lock().unwrap() = (n, t.clone()); }
+                let r = std::panic::catch_unwind(|| check(t)).unwrap_or_else(|_| Err(format!("C02 panic: input {:?}", t)));
+                if let Err(e) = r { let _ = tx.send(Err(e)); return; }
+            }
+            frontier = next;
         }
-        frontier = next;
-    }
-    // a few longer shapes under a timeout (possible non-termination)
-    for t in ["class A { int x = 1; }\n#ifdef X\nclass B;", "def x : A<1, [2]> { let y = !add(1, 2); }", "foreach i = [1,2] in { def d#i; }", "class }} def", "let a = b in { def c; } }"] {
-        if let Err(e) = run(t.to_string()) { panic!("WITNESS {e}"); }
+        for t in ["class A { int x = 1; }\n#ifdef X\nclass B;", "def x : A<1, [2]> { let y = !add(1, 2); }", "foreach i = [1,2] in { def d#i; }", "class }} def", "let a = b in { def c; } }"] {
+            *cur2.lock().unwrap() = (n, t.to_string());
+            let r = std::panic::catch_unwind(|| check(t)).unwrap_or_else(|_| Err(format!("C02 panic: input {:?}", t)));
+            if let Err(e) = r { let _ = tx.send(Err(e)); return; }
+        }
+        let _ = tx.send(Ok(()));
+    });
+    let mut last = (u64::MAX, String::new());
+    loop {
+        match rx.recv_timeout(Duration::from_secs(10)) {
+            Ok(Ok(())) => return,
+            Ok(Err(e)) => panic!("WITNESS {e}"),
+            Err(mpsc::RecvTimeoutError::Timeout) => {
+                let now = current.lock().unwrap().clone();
+                if now == last { panic!("WITNESS C02 no termination within 10 s: input {:?}", now.1); }
+                last = now;
+            }
+            Err(mpsc::RecvTimeoutError::Disconnected) => panic!("search thread died"),
+        }
     }
 }
